@@ -12,6 +12,7 @@ import (
 	"sort"
 	"strconv"
 	"strings"
+	"time"
 
 	"github.com/Dash-Industry-Forum/livesim2/pkg/drm"
 )
@@ -408,6 +409,14 @@ func createURL(r *http.Request, aInfo assetsInfo, drmCfg *drm.DrmConfig) urlGenD
 		sb.WriteString(fmt.Sprintf("traffic_%s/", traffic))
 	}
 	sb.WriteString(fmt.Sprintf("%s/%s", asset, mpd))
+	// A URL is only shown if the server will accept it: the URL parser judges the generated path
+	// (value syntax and ranges, options that cannot be combined).
+	if len(data.Errors) == 0 {
+		confPath := (&url.URL{Path: strings.TrimPrefix(sb.String(), aInfo.Host)}).String()
+		if _, err := processURLCfg(confPath, int(time.Now().UnixMilli())); err != nil {
+			data.Errors = append(data.Errors, fmt.Sprintf("bad configuration: %s", err.Error()))
+		}
+	}
 	if annexI != "" {
 		query, err := queryFromAnnexI(annexI)
 		if err != nil {
